@@ -667,6 +667,7 @@ func checkC20(c *Ctx, r *Report) {
 		r.add("C20.d", "fieldflow", fnk+":passes-config", fnk+" hands the loaded configuration to the routes generator", []string{fnk}, sites, viol)
 	}
 	checkInfoCopied(c, r, "C20.d", "generator/swagen/swagen30.GenerateSpec", "generator/swagen/swagen31.GenerateSpec")
+	checkInfoSectionsIndependent(c, r, "C20.d", "generator/swagen/swagen30.GenerateSpec", "generator/swagen/swagen31.GenerateSpec")
 	for _, e := range emitters {
 		checkSecuritySchemes(c, r, "C20.d", e.Ver, e.Pkg)
 	}
